@@ -27,7 +27,7 @@ fn describe(prop: &str) -> (&'static str, &'static str) {
             "deposit ledger vs REAL bank / cw20 balances of every actor and the multisig after every step: Propose accepted only with exactly the configured coin attached (native) and moves exactly the deposit proposer->multisig; refund only to the proposer, at most once, mandatory on Execute, permitted (refunds enabled) on the Vote that makes the proposal fail or on Close, never otherwise; recoverability: from every reachable state with a failed, unrefunded proposal and refunds enabled, a bounded exhaustive search over AdvanceBlock^k (k<=4) [Vote]? (Close|Execute) by any actor must reach a state where the proposer has the deposit back",
         ),
         "C04" => (
-            "every total T in 0..=N (N=9 quick, 16 thorough), every tally (yes,no,abstain,veto) with sum <= T, every AbsoluteCount 1..=T, percentages/quorums at every rounding boundary i/j reachable with weights <= N (floor/ceil at 9 and at 18 decimals and their +-1 ulp neighbours), expired and not; large scope T in {2^32, 2^63, 2^64-2, 2^64-1} with counters on a boundary grid {0,1,T/3,T/2-1,T/2,T/2+1,T-1,T}",
+            "every total T in 0..=N (N=12 quick, 24 thorough), every tally (yes,no,abstain,veto) with sum <= T, every AbsoluteCount 1..=T, percentages/quorums at every rounding boundary i/j reachable with weights <= N (floor/ceil at 9 and at 18 decimals and their +-1 ulp neighbours), expired and not; large scope T in {2^32, 2^63, 2^64-2, 2^64-1} with counters on a boundary grid {0,1,T/3,T/2-1,T/2,T/2+1,T-1,T}",
             "needed(w,p)=ceil(w*p) in u128; after expiry the library's decision equals the documented formula with yes>0 (percentages with <= 9 decimals) or lies between exact and one-vote-laxer (18 decimals); before expiry: backward dynamic programming over the lattice gives mustPass (all completions) / canPass (some completion): library Passed => mustPass, library Rejected => not canPass; never passed and rejected together; never Passed with yes=0; no panic for tallies <= total; current_status consistent with is_passed/is_rejected",
         ),
         _ => ("", ""),
